@@ -273,6 +273,12 @@ func VH_conditions(size int) {
 		c = &ast.Unary{Operator: tok(token.BANG, "!", 3), Right: operand, Line: 3}
 	case 3:
 		c = &ast.Unary{Operator: tok(token.NOT, "~", 3), Right: operand, Line: 3}
+		// what is decided here is which node kinds a condition may be, not the arithmetic of ~
+		// (VH_unary does that): a numeric operand is one of a few representative numbers
+		if v := vpVals[0][0]; hvIsNum(v) {
+			x := hvNum(v)
+			verifAssume(x == 0 || x == -1 || x == 5 || x == -7 || x == 2.5)
+		}
 	case 4:
 		c = &ast.Unary{Operator: tok(token.MINUS, "-", 3), Right: operand, Line: 3}
 	}
